@@ -4,12 +4,12 @@
 (* steps - visible ones consuming trace lines in order, silent ones in between - explains them.              *)
 (* Many scenarios are concatenated: a "Config" line resets the machine, a "Quiesce" line closes a scenario   *)
 (* and carries what the harness observed after everything stopped.                                           *)
-EXTENDS FailsafeT, SequencesExt
+EXTENDS FailsafeTProps
 
 CONSTANT TraceFile
 Trace == ndJsonDeserialize(TraceFile)
 
-VARIABLES l, log      \* position in the trace; the visible events of the current scenario (history variable)
+VARIABLE l      \* position in the trace (log, declared in FailsafeTProps, holds the visible events of the current scenario)
 allvars == <<cfg, pol, now, xs, th, envi, acqc, l, log>>
 
 Line == Trace[l]
@@ -17,23 +17,6 @@ Line == Trace[l]
 Match(lab) ==
   /\ lab.ev # "-" /\ l <= Len(Trace) /\ Line.ev = lab.ev /\ Line.t = now
   /\ \A f \in DOMAIN lab \ {"nx", "ev"} : f \in DOMAIN Line /\ Line[f] = lab[f]
-
-SetOf(seq) == {seq[j] : j \in 1..Len(seq)}
-NormDesc(d) ==
-  CASE d.k = "retry" -> [d EXCEPT !.h = SetOf(d.h), !.a = SetOf(d.a)]
-    [] d.k = "fb" -> [d EXCEPT !.h = SetOf(d.h)]
-    [] d.k = "cb" -> [d EXCEPT !.h = SetOf(d.h)]
-    [] d.k = "hg" -> [d EXCEPT !.c = SetOf(d.c)]      \* d.delays stays a sequence
-    [] OTHER -> d
-NormCfg(c) == [c EXCEPT !.stack = [j \in 1..Len(c.stack) |-> NormDesc(c.stack[j])]]
-
-Dummy == [objs |-> <<>>, last |-> <<>>, cres |-> NilPR, att |-> 0, ret |-> 0, hdg |-> 0, exe |-> 0, calls |-> 0, t0 |-> 0,
-          rs |-> <<>>, final |-> NilPR, returned |-> FALSE, async |-> FALSE, cancel1 |-> FALSE, stored |-> FALSE, doneflag |-> FALSE, closed |-> FALSE]
-
-InitPolOf(c) ==
-  LET ids == {c.stack[j].id : j \in {jj \in 1..Len(c.stack) : c.stack[jj].k \in {"cb", "bh"}}} IN
-  [id \in ids |-> LET d == c.stack[CHOOSE j \in 1..Len(c.stack) : c.stack[j].k \in {"cb", "bh"} /\ c.stack[j].id = id] IN
-                  IF d.k = "cb" THEN BO(d.cfg)!NewClosed ELSE 0]
 
 TraceReset ==
   /\ l <= Len(Trace) /\ Line.ev = "Config"
@@ -53,110 +36,7 @@ TraceAdvanceTo ==
   /\ now' = Line.t /\ UNCHANGED <<cfg, pol, xs, th, envi, acqc, l, log>>
 TraceObserve == \E lab \in ObsLabels(St) : Match(lab) /\ l' = l + 1 /\ log' = Append(log, Line) /\ UNCHANGED <<cfg, pol, now, xs, th, envi, acqc>>
 
-----------------------------------------------------------------------------
-(* ---- property predicates over the visible events of one finished scenario (from the property texts) ---- *)
-Idx == 1..Len(log)
-EvOf(i) == log[i].ev
-OfX(i, x) == "x" \in DOMAIN log[i] /\ log[i].x = x
-First(S) == CHOOSE i \in S : \A j \in S : i <= j
-HasStack(k) == \E j \in 1..Len(cfg.stack) : cfg.stack[j].k = k
-
-\* C08: an execution whose cancellation had fully taken effect while it was still running attempts or waiting must report
-\* the cause (never another error, never a fallback's output), starts at most one further attempt, and - when its
-\* functions cooperate - completes at the instant of the cancellation
-C08_OK ==
-  \A x \in 1..cfg.nx :
-    LET calls == {i \in Idx : EvOf(i) \in {"CtxCancel", "AsyncCancel"} /\ OfX(i, x)}
-        rets == {i \in Idx : EvOf(i) = "CancelRet" /\ OfX(i, x)}
-        returns == {i \in Idx : EvOf(i) = "Return" /\ OfX(i, x)} IN
-    (calls # {} /\ rets # {} /\ returns # {} /\ (HasStack("retry") \/ HasStack("hg")) /\ ~HasStack("to")
-       /\ First(returns) > First(rets)) =>           \* the caller got its result after the cancellation had taken effect
-      LET c == First(calls)   r == First(rets)   R == log[First(returns)]
-          cause == IF EvOf(c) = "CtxCancel" THEN "CtxCanceled" ELSE "ExecCanceled"
-          startsAfter == {i \in Idx : i > r /\ EvOf(i) = "FnStart" /\ OfX(i, x)}
-          \* the execution was demonstrably still running after the cancellation took effect
-          stillRunning == \E i \in Idx : i > r /\ i < First(returns) /\ OfX(i, x) /\ EvOf(i) \in {"FnStart", "FnEnd", "OnRetryScheduled", "OnRetry", "OnHedge"}
-          allCoop == \A k \in 1..Len(cfg.fns[x]) : cfg.fns[x][k].coop \/ cfg.fns[x][k].d = 0
-      IN /\ (stillRunning => R.e.op = cause)                                       \* Attribution
-         /\ (~HasStack("hg") => Cardinality(startsAfter) <= 1)                      \* AtMostOneMoreAttempt
-         /\ (stillRunning /\ allCoop /\ cfg.fnDefault.d = 0 => R.t = log[r].t)      \* Prompt
-         /\ ~(\E i \in Idx : i > r /\ EvOf(i) = "FallbackFn" /\ OfX(i, x) /\ stillRunning)   \* no fallback for a cancelled execution
-
-\* C06: never more executions inside the function (plus standalone permits) than the bulkhead allows, at any point of the log
-C06_OK ==
-  \A id \in DOMAIN cfg.bhmax :
-    \A n \in Idx :
-      LET starts == Cardinality({i \in 1..n : EvOf(i) = "FnStart"})
-          ends == Cardinality({i \in 1..n : EvOf(i) = "FnEnd"})
-          \* a standalone permit is held from the return of a successful TryAcquirePermit until ReleasePermit is called
-          taken == Cardinality({i \in 1..n : EvOf(i) \in {"BhTake", "BhAcquired"} /\ log[i].ok}) - Cardinality({i \in 1..n : EvOf(i) = "BhReleaseCall"})
-          \* only meaningful when every invocation runs under the bulkhead (it is in the stack of every execution)
-      IN starts - ends + taken <= cfg.bhmax[id]
-
-\* C04: no invocation starts at an instant strictly after the breaker opened and before its delay elapsed (while it stays
-\* open); in a half-open epoch the executions admitted in that epoch never exceed the trial capacity
-CbIds == {cfg.stack[j].id : j \in {jj \in 1..Len(cfg.stack) : cfg.stack[jj].k = "cb"}}
-C04_OK ==
-  \A id \in CbIds :
-    LET d == cfg.stack[CHOOSE j \in 1..Len(cfg.stack) : cfg.stack[j].k = "cb" /\ cfg.stack[j].id = id]
-        sc == {i \in Idx : EvOf(i) = "StateChanged" /\ log[i].id = id}
-        cap == IF d.cfg.scap # 0 THEN d.cfg.scap ELSE IF d.cfg.fexec # 0 THEN d.cfg.fexec ELSE d.cfg.fcap
-        NextSc(i) == LET S == {j \in sc : j > i} IN IF S = {} THEN Len(log) + 1 ELSE First(S)
-    IN \A i \in sc :
-         /\ (log[i].new = "open" =>
-               ~\E j \in (i + 1)..(NextSc(i) - 1) : EvOf(j) = "FnStart" /\ log[j].t > log[i].t /\ log[j].t < log[i].t + d.cfg.delay)
-         /\ (log[i].new = "halfopen" =>
-               \A n \in (i + 1)..(NextSc(i) - 1) :
-                  LET starts == {j \in (i + 1)..n : EvOf(j) = "FnStart" /\ log[j].t > log[i].t}
-                      ends == {j \in (i + 1)..n : EvOf(j) = "FnEnd" /\ \E s \in starts : log[s].x = log[j].x /\ log[s].k = log[j].k}
-                  IN Cardinality(starts) - Cardinality(ends) <= cap)
-
-\* C15: every reader gets the same values, which are the ones reported to the completion listeners; IsDone is never true
-\* before the completion listeners ran; a Cancel that took effect before completion under retry/hedge reports ErrExecutionCanceled
-C15_OK ==
-  \A x \in 1..cfg.nx :
-    LET gets == {i \in Idx : EvOf(i) \in {"GetRet", "Return"} /\ OfX(i, x)}
-        dones == {i \in Idx : EvOf(i) = "ExecOnDone" /\ OfX(i, x)}
-        isdone == {i \in Idx : EvOf(i) = "IsDone" /\ OfX(i, x) /\ log[i].v}
-        closed == {i \in Idx : EvOf(i) = "DoneClosed" /\ OfX(i, x)} IN
-    /\ \A i \in gets, j \in gets : log[i].r = log[j].r /\ log[i].e = log[j].e
-    /\ (dones # {} => \A i \in gets : log[i].r = log[First(dones)].lr /\ log[i].e = log[First(dones)].le)
-    /\ \A i \in isdone \cup closed \cup gets : dones # {} /\ i > First(dones)
-    /\ \A i \in closed : \A j \in {jj \in Idx : jj > i /\ EvOf(jj) = "IsDone" /\ OfX(jj, x)} : log[j].v
-
-\* C09: a hedged execution (hedge outermost, nothing re-applying it) starts at most maxHedges+1 attempts, never starts hedge k
-\* before the first k hedge delays have elapsed, and returns a result produced by an attempt: a cancel-matching one when one
-\* was produced at an earlier instant than every non-matching candidate, else one delivered after all attempts finished
-HedgeDelayAt(p, j) == IF p.delays = <<>> THEN p.delay ELSE p.delays[(j % Len(p.delays)) + 1]
-RECURSIVE SumDelays(_, _)
-SumDelays(p, k) == IF k = 0 THEN 0 ELSE SumDelays(p, k - 1) + HedgeDelayAt(p, k - 1)
-C09_OK ==
-  (Len(cfg.stack) = 1 /\ cfg.stack[1].k = "hg") =>
-    \A x \in 1..cfg.nx :
-      LET p == cfg.stack[1]
-          st == {i \in Idx : EvOf(i) = "Start" /\ OfX(i, x)}
-          hs == {i \in Idx : EvOf(i) = "OnHedge" /\ OfX(i, x)}
-          ends == {i \in Idx : EvOf(i) = "FnEnd" /\ OfX(i, x)}
-          rets == {i \in Idx : EvOf(i) = "Return" /\ OfX(i, x)}
-          cancelled == \E i \in Idx : EvOf(i) \in {"CtxCancel", "AsyncCancel"}
-          CMatch(i) == (p.c = {}) \/ AbortsCode(p.c, log[i].r, log[i].e) IN
-      (st # {} /\ rets # {} /\ ~cancelled) =>
-        LET R == log[First(rets)]
-            before == {i \in ends : i < First(rets)}
-            winners == {i \in before : log[i].r = R.r /\ log[i].e = R.e} IN
-        /\ Cardinality(hs) <= p.maxh                                                            \* AttemptBound
-        /\ Cardinality({i \in Idx : EvOf(i) = "FnStart" /\ OfX(i, x)}) <= p.maxh + 1
-        /\ \A i \in hs : log[i].t >= log[First(st)].t + SumDelays(p, Cardinality({j \in hs : j <= i}))   \* Spacing
-        /\ winners # {}                                                                         \* WinnerIsReal
-        /\ \A i \in hs : i < First(rets) \/ log[i].t = R.t                                       \* no hedge after acceptance (same instant allowed)
-        /\ (\E i \in before : CMatch(i) /\ log[i].t < R.t) =>                                   \* a matching result produced strictly earlier
-              \E i \in winners : CMatch(i)
-        \* (a matching and a final non-matching result produced at the same instant: either may be delivered - the counter
-        \*  and the sent-flag are two atomics, and "as soon as" does not order simultaneous results)
-        /\ ((~\E i \in winners : CMatch(i)) => Cardinality(before) = p.maxh + 1)                \* OtherwiseAfterAll
-
 \* the scenario is over: nothing can step, nothing is pending; the harness' observations must agree with the model
-AllEnded == \A t \in 1..Len(th) : th[t].mode = "end"
 TraceQuiesce ==
   /\ l <= Len(Trace) /\ Line.ev = "Quiesce"
   /\ ~Runnable(St) /\ ~EnvDue(St)
